@@ -112,6 +112,9 @@ type world struct {
 	reorgCh  chan duties.ReorgEvent
 	idxCh    chan struct{}
 	cancel   context.CancelFunc
+	ctx      context.Context
+	h        handler
+	running  bool
 	done     chan struct{}
 	store    *dutystore.Store
 
@@ -234,6 +237,7 @@ func (fakeVC) GetOperatorShares() []*ssvtypes.SSVShare                       { r
 type handler interface {
 	Setup(string, *zap.Logger, duties.BeaconNode, duties.ExecutionClient, networkconfig.NetworkConfig, duties.ValidatorController, duties.ExecuteDutiesFunc, slotticker.Provider, chan duties.ReorgEvent, chan struct{})
 	HandleDuties(context.Context)
+	HandleInitialDuties(context.Context)
 }
 
 func newWorld(role string, spe, epp, maxKey, s0 int, active []int, res *vh.Result, beh string) *world {
@@ -268,16 +272,37 @@ func newWorld(role string, spe, epp, maxKey, s0 int, active []int, res *vh.Resul
 	}
 	h.Setup(role, zap.NewNop(), fakeBN{w}, execClient{}, networkconfig.NetworkConfig{Beacon: w.vn}, fakeVC{w}, exec,
 		func() slotticker.SlotTicker { return w.tk }, w.reorgCh, w.idxCh)
-	ctx, cancel := context.WithCancel(context.Background())
-	w.cancel = cancel
-	go func() { defer close(w.done); h.HandleDuties(ctx) }()
+	w.ctx, w.cancel = context.WithCancel(context.Background())
+	w.h = h
+	return w
+}
+
+// start launches HandleDuties (as Scheduler.Start does after Setup and HandleInitialDuties).
+func (w *world) start() {
+	if w.running {
+		return
+	}
+	w.running = true
+	go func() { defer close(w.done); w.h.HandleDuties(w.ctx) }()
 	// the sync-committee handler reads EstimatedCurrentSlot once before its loop: wait until it is in select
 	w.barrier()
-	return w
+}
+
+// initialDuties calls HandleInitialDuties synchronously, before the loop is started (Scheduler.Start's order).
+func (w *world) initialDuties(okC bool) tickObs {
+	k := w.keyOf(w.slot)
+	w.mu.Lock()
+	w.okFor = map[int]bool{k: okC}
+	w.mu.Unlock()
+	w.h.HandleInitialDuties(w.ctx)
+	return w.observe(w.drain(), -1, w.slot)
 }
 
 func (w *world) close() {
 	w.cancel()
+	if !w.running {
+		return
+	}
 	select {
 	case <-w.done:
 	case <-time.After(10 * time.Second):
@@ -449,6 +474,7 @@ func (w *world) nextTickSlot() int {
 }
 
 func (w *world) tick(lag int, okC, okN bool) tickObs {
+	w.start()
 	s := w.nextTickSlot()
 	k := w.keyOf(s)
 	w.mu.Lock()
@@ -477,6 +503,7 @@ func (w *world) tick(lag int, okC, okN bool) tickObs {
 }
 
 func (w *world) reorg(kind string) tickObs {
+	w.start()
 	k := w.keyOf(w.slot)
 	switch {
 	case w.role == "att" && kind == "prev":
@@ -501,6 +528,7 @@ func (w *world) reorg(kind string) tickObs {
 }
 
 func (w *world) indicesChange(active []int) tickObs {
+	w.start()
 	k := w.keyOf(w.slot)
 	w.invalidate(k, k+1)
 	w.mu.Lock()
@@ -628,6 +656,12 @@ func replay(b vh.Behaviour, res *vh.Result) {
 				p := intsOf(e)
 				w.setTruth(vh.Int(a, "key"), p[0], p[1])
 			}
+		case "InitialDuties":
+			if w.running {
+				res.Diverge(b.ID, i, "initial-duties-after-start", false, true)
+				continue
+			}
+			o = w.initialDuties(vh.Bool(a, "okC"))
 		case "Tick":
 			if s := vh.Int(a, "slot"); s != w.nextTickSlot() {
 				res.Diverge(b.ID, i, "tick.slot", s, w.nextTickSlot())
@@ -761,7 +795,8 @@ func ownRun(c ownCfg, rng *rand.Rand, res *vh.Result, tw *vh.TraceWriter, id str
 			tw.Emit(ev)
 		}
 	}
-	emit(map[string]any{"event": "Reset", "s0": s0, "active": active})
+	initd := c.role != "att" && rng.Intn(2) == 0
+	emit(map[string]any{"event": "Reset", "s0": s0, "active": active, "initd": initd})
 	nextAssign := 0
 	steps := 0
 	dispatched := 0
@@ -783,6 +818,16 @@ func ownRun(c ownCfg, rng *rand.Rand, res *vh.Result, tw *vh.TraceWriter, id str
 		}
 		w.step = steps
 		steps++
+		if initd {
+			initd = false
+			o := w.initialDuties(rng.Intn(4) != 0)
+			fs := [][]any{}
+			for _, f := range o.fetches {
+				fs = append(fs, []any{f[0], f[1] == 1})
+			}
+			emit(map[string]any{"event": "InitialDuties", "fetches": fs})
+			continue
+		}
 		switch r := rng.Intn(100); {
 		case r < 12: // reorg
 			kind := "cur"
